@@ -94,6 +94,10 @@ type Call struct {
 	Extra     any
 	// ReleaseAtOnce: the application is done with the response the moment it gets it (no hold)
 	ReleaseAtOnce bool
+	// ReadLater: the caller reads the response again that many phases after the call returned, then releases it;
+	// OnChanged is told when it no longer is what the call returned
+	ReadLater int
+	OnChanged func(was, now *RespInfo)
 }
 
 func (c *Call) Done() bool { c.mu.Lock(); defer c.mu.Unlock(); return c.done }
@@ -147,9 +151,24 @@ func (e *Env) Start(c *Call, f func(ctx context.Context) (*pool.Message, error),
 				e.Pool.CheckHeld(resp, ri)
 				e.Pool.Unhold(resp)
 			}
-			if release != nil {
+			if release != nil && c.ReadLater == 0 {
 				release(resp)
 			}
+		}
+		if resp != nil && c.ReadLater > 0 {
+			// the caller keeps the response for a few phases and reads it again before it releases it: what it was
+			// given is its own until then
+			defer func() {
+				for i := 0; i < c.ReadLater; i++ {
+					<-e.NextPhase()
+				}
+				if now := Snapshot(resp); !now.Equal(ri) && c.OnChanged != nil {
+					c.OnChanged(ri, now)
+				}
+				if release != nil {
+					release(resp)
+				}
+			}()
 		}
 		c.mu.Lock()
 		c.done = true
